@@ -176,4 +176,51 @@ theorem buildAll_carries_int {low : Int} {data : List UInt8} {base : Nat} {fs : 
     · simp only []; omega
     · simp only [List.length_take, List.length_drop]; omega
 
+/-- a layout that `layoutTiles` accepts for the share, handed a base offset such that the share's true
+    offset `base + lowest` is non-negative and everything is representable, builds a payload that
+    carries the share at `base + lowest` -/
+theorem layoutTiles_build (qfs : List QFrame) (data : List UInt8) (base : Nat)
+    (ht : layoutTiles qfs data.length = true) (hbl : 0 ≤ (base : Int) + layoutLowest qfs)
+    (hn8 : data.length ≤ maxVarInt8)
+    (hrep : ∀ off len, QFrame.crypto off len ∈ layoutOf' qfs → off + (base : Int) ≤ maxVarInt8) :
+    ∃ p, qfBuild qfs data base = .ok p ∧
+      carries data ((base : Int) + layoutLowest qfs).toNat [p] = true := by
+  rw [layoutTiles_iff, layoutLowest_eq] at ht
+  rw [layoutLowest_eq] at hbl ⊢
+  obtain ⟨hent, hcov⟩ := ht
+  have hlow : ∀ off len, QFrame.crypto off len ∈ layoutOf' qfs → lowestOffset (layoutOf' qfs) ≤ off :=
+    fun off len hm => (foldl_low_le (layoutOf' qfs) 65535).2.1 _ hm
+  obtain ⟨p, hp, hc⟩ := buildAll_carries_int (low := lowestOffset (layoutOf' qfs)) (data := data) (base := base)
+    (fs := layoutOf' qfs) hbl
+    (by
+      intro f hf
+      have he := hent f hf
+      cases f with
+      | crypto off len =>
+        simp only [EntryOk] at he
+        exact ⟨hlow _ _ hf, he.2.1, by have := hlow _ _ hf; omega, hrep _ _ hf, by omega⟩
+      | padding l => exact he
+      | ping => trivial)
+    (by
+      intro off len hm
+      have he := hent _ hm
+      simp only [EntryOk] at he
+      exact he.2.2)
+    (by
+      intro i hi
+      obtain ⟨r, hr, h1, h2⟩ := hcov i hi
+      obtain ⟨off, len, hm, rfl⟩ := mem_flatMap_rangeOf.mp hr
+      have he := hent _ hm
+      simp only [EntryOk] at he
+      have hst : rstart (lowestOffset (layoutOf' qfs)) data.length off = off - lowestOffset (layoutOf' qfs) := by
+        unfold rstart; omega
+      refine ⟨off, len, hm, by rw [hst]; simp only [] at h1; omega, ?_⟩
+      simp only [rlen, hst]
+      simp only [] at h1 h2
+      split at h2 <;> rename_i hc <;> simp only [hc, if_true, if_false] <;> omega)
+  refine ⟨p, ?_, hc⟩
+  simp only [qfBuild]
+  have : (if qfs.isEmpty = true then [QFrame.crypto 0 0] else qfs) = layoutOf' qfs := rfl
+  rw [this, hp]
+
 end Uquic.Proofs.FramesMore
